@@ -271,6 +271,8 @@ class Layout(ShapeCastable, metaclass=ABCMeta):
             shape = Shape.cast(field.shape)
             field_value = value[field.offset:field.offset+shape.width]
             if isinstance(field.shape, ShapeCastable):
+                if shape.signed:
+                    field_value = field_value.as_signed()
                 fields[str(key)] = field.shape.format(field.shape(field_value), "")
             else:
                 if shape.signed:
@@ -568,6 +570,8 @@ class ArrayLayout(Layout):
         for index in range(self._length):
             field_value = value[shape.width * index:shape.width * (index + 1)]
             if isinstance(self._elem_shape, ShapeCastable):
+                if shape.signed:
+                    field_value = field_value.as_signed()
                 fields.append(self._elem_shape.format(self._elem_shape(field_value), ""))
             else:
                 if shape.signed:
@@ -853,6 +857,8 @@ class View(ValueCastable):
         # Field guarantees that the shape-castable object is well-formed, so there is no need
         # to handle erroneous cases here.
         if isinstance(shape, ShapeCastable):
+            if Shape.cast(shape).signed:
+                value = value.as_signed()
             value = shape(value)
             if not isinstance(value, (Value, ValueCastable)):
                 raise TypeError(
@@ -1103,7 +1109,7 @@ class Const(ValueCastable):
         # Field guarantees that the shape-castable object is well-formed, so there is no need
         # to handle erroneous cases here.
         if isinstance(shape, ShapeCastable):
-            return shape.from_bits(value)
+            return shape.from_bits(hdl.Const(value, Shape.cast(shape)).value)
         return hdl.Const(value, Shape.cast(shape)).value
 
     def __getattr__(self, name):
